@@ -2,7 +2,7 @@ CONFIG = dict(
     props=["DhcpProofs.Props.C03"],
     facts=[],
     streams=[("v4dec", 4000, 30000), ("v6dec", 6000, 40000)],
-    oracles=[("c03", 20000, 300000)],
+    oracles=[("c03", 40000, 1200000)],
     full_statement_proved=False,
     missing=("Proved for the model: no panic in dhcpv4.FromBytes, dhcpv4.Options.FromBytes, dhcpv6.FromBytes/MessageFromBytes/"
              "RelayMessageFromBytes/ParseOption/Options.FromBytes/DUIDFromBytes (every option type, any nesting), label decoding "
@@ -17,7 +17,7 @@ CONFIG = dict(
           "random inputs. oracle c03 (real code only): every decoding entry point (dhcpv4.FromBytes, Options.FromBytes, 15 DHCPv4 "
           "value types, dhcpv6.FromBytes/MessageFromBytes/RelayMessageFromBytes/ParseOption for every known and some unknown "
           "codes/Options.FromBytes/DUIDFromBytes, rfc1035label.FromBytes, iana.Archs.FromBytes, nclient4 raw ReadFrom over scripted "
-          "frames) under recover + a 2 s watchdog, on: the regression corpus corpus/c03.txt, a base corpus with a valid instance of "
+          "frames) under recover + a watchdog (a call still running after 2 s, and after 2 s more with all other work paused, is a hang), on: the regression corpus corpus/c03.txt, a base corpus with a valid instance of "
           "every option type and every ZTP vendor string, truncation at every offset and every structural length field +1/-1/0/max "
           "(sampled in quick, complete in thorough), 14 mutators (truncate, length fields, splice, repeat chunk, compression "
           "pointers, extreme values, bit flips, insert/delete, option-code confusion, pad/tile to 4096 and 65507 bytes, container "
